@@ -921,7 +921,8 @@ namespace svmon
       static const int grow_heavy[] = {
         OP_PUSH_BACK_COPY, OP_PUSH_BACK_MOVE, OP_EMPLACE_BACK, OP_INSERT_COPY, OP_INSERT_MOVE, OP_EMPLACE, OP_INSERT_N, OP_INSERT_RANGE,
         OP_INSERT_ILIST, OP_RESIZE, OP_RESIZE_VAL, OP_RESERVE, OP_ASSIGN_N, OP_ASSIGN_RANGE, OP_APPEND_RANGE, OP_APPEND_ILIST,
-        OP_APPEND_COPY, OP_SHRINK, OP_ERASE_RANGE, OP_CLEAR, OP_CTOR_DEFAULT, OP_ASSIGN_MOVE, OP_SWAP };
+        OP_APPEND_COPY, OP_SHRINK, OP_ERASE_RANGE, OP_CLEAR, OP_CTOR_DEFAULT, OP_ASSIGN_MOVE, OP_SWAP, OP_ASSIGN_COPY, OP_ASSIGN_COPY,
+        OP_CTOR_ALLOC, OP_POP_BACK };
       const int *table = general; unsigned tn = sizeof general / sizeof general[0];
       if (mode == MODE_ALLOC) { table = alloc_heavy; tn = sizeof alloc_heavy / sizeof alloc_heavy[0]; }
       if (mode == MODE_ALIAS) { table = alias_heavy; tn = sizeof alias_heavy / sizeof alias_heavy[0]; }
